@@ -1,5 +1,9 @@
 """C04  Every string outside the RFC 9535 grammar is rejected by compile().
 
+MC     T1: the RFC grammar held as data (ABNF.tla, generic set-of-end-positions
+       recogniser) and the recursive-descent parser (Syntax.tla) accept the same
+       strings: all '$'+w with |w| <= 2 and a seeded sample of this run's texts.
+
 TRACE  (1) every string '$' + w, w over a 27-symbol alphabet (one representative
            per lexical class), |w| <= 3 (quick) / 4 (thorough);
        (2) seeded sequences of up to 9 lexemes ($ .a ..a [ ] 'a' "a" 0 -1 01 -0 :
@@ -58,6 +62,8 @@ def run(chk: core.Check, tier: str, seed: int) -> None:
         texts += nb
         n_nb += len(nb)
     texts = list(dict.fromkeys(texts))
+    t1 = list(gen.short_strings(ALPHA, 2)) + rng.sample(texts, 1200 if tier == "quick" else 30000)
+    common.t1_check(chk, [t for t in t1 if len(t) <= 60], "c04_t1")
     recs = [impl.rec_compile(jp, q) for q in texts]
     for r in recs:
         chk.nontrivial.add(tuple(r["q"]))
